@@ -445,6 +445,9 @@ class Engine:
                 return 'bool'
             if op[1] in self.consts:
                 return self.consts[op[1]][1]
+            m = re.match(r'^(?:core|std)::num::<impl (\w+)>::(MAX|MIN)$', op[1]) or re.match(r'^(\w+)::(MAX|MIN)$', op[1])
+            if m and m.group(1) in INTS:
+                return m.group(1)
             if op[1].startswith("'"):
                 return 'char'
         return '?'
@@ -623,6 +626,14 @@ class Engine:
         if text in self.consts:
             v, tn = self.consts[text]
             return Sc(bv(v, INTS[tn].w))
+        m = re.match(r'^(?:core|std)::num::<impl (\w+)>::(MAX|MIN|BITS)$', text) or re.match(r'^(\w+)::(MAX|MIN|BITS)$', text)
+        if m and m.group(1) in INTS:
+            t = INTS[m.group(1)]
+            if m.group(2) == 'BITS':
+                return Sc(bv(t.w, 32))
+            if m.group(2) == 'MAX':
+                return Sc(bv((1 << (t.w - 1)) - 1 if t.signed else (1 << t.w) - 1, t.w))
+            return Sc(bv(-(1 << (t.w - 1)) if t.signed else 0, t.w))
         m = re.match(r'^ZeroSized: (.*)$', text, re.S)
         if m:
             t = m.group(1).strip()
